@@ -109,6 +109,15 @@ type Run struct {
 
 var cur *Run
 
+var bigLoads, oomLoads int
+
+func statBig(ok bool) {
+	bigLoads++
+	if !ok {
+		oomLoads++
+	}
+}
+
 // results of the chronicler's internal calls, reported by the chron.open / chron.put trace hooks
 var chronOpen, chronPut int
 
@@ -268,6 +277,17 @@ func (r *Run) peek() (int, []int) {
 	m := r.emptyMap()
 	if _, err := os.Stat(r.path); os.IsNotExist(err) {
 		return 0, m
+	}
+	if suspicious(r.path) {
+		res, ok := r.childLoad("fw")
+		statBig(ok)
+		if res.Err != 0 {
+			return 1, m
+		}
+		if r.h.Level == "fw" {
+			return 0, r.mapOf(res)
+		}
+		// (chronicler level: the values must be decoded; the child showed that the load is affordable)
 	}
 	var idx map[string][]byte
 	err := r.guarded(func() error {
@@ -485,7 +505,16 @@ func (r *Run) openCh() {
 	c.RegisterLiveCountFunction(func() int { return len(r.mirror) })
 	b := beacon.New()
 	r.begin("load")
-	r.guarded(func() error { c.Load(b); return nil })
+	skip := false
+	if suspicious(r.path) {
+		// the child tells whether this Load survives; a failed Load leaves beacon and chronicler untouched
+		res, ok := r.childLoad("ch")
+		statBig(ok)
+		skip = !ok || len(res.KV) == 0
+	}
+	if !skip {
+		r.guarded(func() error { c.Load(b); return nil })
+	}
 	r.mirror = b.GetAll()
 	r.emit(Event{"ev": "load", "err": -1, "m": r.beaconMap(b)})
 	r.ch = c
@@ -702,6 +731,9 @@ func (x *Exec) executeDir(h *History, in *Interner, dir string, record bool, fau
 	verifhook.SetTrace(nil)
 	cur = nil
 	x.stat("panics", r.panics)
+	x.stat("big_alloc_loads", bigLoads)
+	x.stat("oom_loads", oomLoads)
+	bigLoads, oomLoads = 0, 0
 	return r
 }
 
